@@ -74,12 +74,14 @@ func (c Call) String() string {
 }
 
 type Tree struct {
-	ByName  map[string]xpath.Datum // non-nil: byname mode
-	Calls   []Call
-	FailAt  map[int]bool // 1-based callback indices that fail
-	NCalls  int
-	Faults  []error // injected errors, in order
-	AfterFault int  // number of callbacks invoked after the first fault
+	ByName map[string]xpath.Datum // non-nil: byname mode
+	// identity mode: nodes whose last element has one of these names have the empty string as value
+	EmptyNames map[string]bool
+	Calls      []Call
+	FailAt     map[int]bool // 1-based callback indices that fail
+	NCalls     int
+	Faults     []error // injected errors, in order
+	AfterFault int     // number of callbacks invoked after the first fault
 }
 
 func NewTree() *Tree { return &Tree{} }
@@ -166,6 +168,9 @@ func (e *Entry) GetValue() (xpath.Datum, error) {
 			return d, nil
 		}
 		return xpath.NewNodesetDatum([]xutils.XpathNode{}), nil
+	}
+	if len(e.path) > 0 && e.t.EmptyNames[e.path[len(e.path)-1].Name] {
+		return xpath.NewLiteralDatum(""), nil
 	}
 	return xpath.NewLiteralDatum(e.Identity()), nil
 }
